@@ -101,6 +101,8 @@ func knownPanic(p *panicInfo) string {
 		return "F33"
 	case strings.Contains(s, "index out of range [0] with length 0") && strings.HasSuffix(site, "openpgp/elgamal.Decrypt"):
 		return "F36"
+	case strings.Contains(s, "nil pointer dereference") && strings.HasSuffix(site, "otr.appendMPI") && strings.Contains(p.stack, "otr.(*Conversation).serializeDHKey"):
+		return "F38"
 	}
 	return ""
 }
